@@ -1,6 +1,6 @@
-(* Proofs/RestoreCapacityProofs.v — what run_maintenance can and cannot do for a
-   cache whose entries the eviction policy was never told about (the restore
-   path of builder/mod.rs admits nothing).
+(* Proofs/RestoreCapacityProofs.v — capacity after run_maintenance, for caches
+   built empty and for caches built from a snapshot (whose restore path, since
+   the repair of finding F-23, admits every restored entry to its policy).
 
    Invariant over insert / insert_with_ttl / clock / peek / iter / fully
    draining run_maintenance:
@@ -64,8 +64,6 @@ Lemma total_filter_le (P : kc -> bool) l : total (filter P l) <= total l.
 Proof.
   induction l as [|[k c] t IH]; cbn [filter total]; [lia|]. destruct (P (k, c)); cbn [total]; lia.
 Qed.
-
-Definition mkc (m : list entry) : list kc := map (fun e => (ekey e, ecost e)) m.
 
 Lemma keys_mkc m : keys (mkc m) = map ekey m.
 Proof. unfold keys, mkc. rewrite map_map. reflexivity. Qed.
@@ -664,29 +662,75 @@ Proof.
   - unfold W64. lia.
 Qed.
 
-Lemma Inv_restore c now' ttl' tti' :
-  wf c -> sumN (map ecost (filter (live (c_tti c) (c_now c)) (concat (maps c)))) < W64 ->
-  let c' := restore (snapshot c) now' ttl' tti' in
-  Inv c' /\ U (c_shs c') = c_cost c'.
+(* what the repaired restore leaves in a bounded cache's shard: every resident is
+   tracked by the shard's policy with its cost, nothing else is, nothing pending *)
+Definition all_tracked (sh : shardst) : Prop :=
+  sh_pend sh = []
+  /\ NoDup (keys (sh_pol sh))
+  /\ (forall e, In e (sh_map sh) -> In (ekey e) (keys (sh_pol sh)))
+  /\ (forall k c, In (k, c) (sh_pol sh) -> In (k, c) (mkc (sh_map sh))).
+
+Lemma all_tracked_ucost sh : all_tracked sh -> ucost sh = 0.
 Proof.
-  intros Hwf Hlt. cbv zeta.
-  destruct (restore_cost c now' ttl' tti' Hwf) as [Hc1 Hc2].
-  destruct (restore_fresh_policy c now' ttl' tti') as [Hfp _].
-  pose proof (restore_wf c now' ttl' tti' Hwf) as Hwf'.
-  assert (Hcost : c_cost (restore (snapshot c) now' ttl' tti')
-                  = total_res (c_shs (restore (snapshot c) now' ttl' tti'))).
+  intros [_ [_ [H _]]]. unfold ucost.
+  assert (Hf : filter (unknownb sh) (mkc (sh_map sh)) = []).
+  { induction (sh_map sh) as [|e t IH]; [reflexivity|]. cbn [mkc map filter]. fold (mkc t).
+    assert (Hk : unknownb sh (ekey e, ecost e) = false).
+    { unfold unknownb, known. cbn [fst]. rewrite negb_false_iff, mem_In. apply in_or_app. left.
+      apply H. left. reflexivity. }
+    rewrite Hk. apply IH. intros x Hx. apply H. right. exact Hx. }
+  rewrite Hf. reflexivity.
+Qed.
+
+Lemma U_all_tracked shs : Forall all_tracked shs -> U shs = 0.
+Proof.
+  induction 1 as [|sh r Hsh _ IH]; [reflexivity|]. unfold U in *. cbn [map sumN].
+  rewrite (all_tracked_ucost sh Hsh), IH. reflexivity.
+Qed.
+
+Lemma restore_policy_tracks cp n i es :
+  NoDup (map ekey es) ->
+  all_tracked (mkSh (filter (fun e => Nat.eqb (shard_idx n (ekey e)) i) es)
+                    (restore_policy (Some cp) n i es) []).
+Proof.
+  intros Hnd. unfold restore_policy. set (m := filter _ es).
+  split; [reflexivity|]. cbn [sh_map sh_pol sh_pend]. split; [apply admit_all_NoDup; constructor|]. split.
+  - intros e He. apply admit_all_keys. left. rewrite keys_mkc. apply in_map. exact He.
+  - intros k c Hi. apply admit_all_spec in Hi. destruct Hi as [[p1 [p2 [Hs _]]]|[_ []]].
+    rewrite Hs. apply in_or_app. right. left. reflexivity.
+Qed.
+
+(* the snapshot's entries in any order [ps] *)
+Lemma Inv_restore c ps now' ttl' tti' cp :
+  wf c -> c_cap c = Some cp -> Permutation ps (s_entries (snapshot c)) ->
+  sumN (map ecost (filter (live (c_tti c) (c_now c)) (concat (maps c)))) < W64 ->
+  let c' := restore (mkSnap ps (c_cap c) (length (c_shs c))) now' ttl' tti' in
+  Inv c' /\ Forall all_tracked (c_shs c') /\ U (c_shs c') = 0.
+Proof.
+  intros Hwf Hcap Hperm Hlt. cbv zeta.
+  destruct (restore_cost c ps now' ttl' tti' Hwf Hperm) as [Hc1 Hc2].
+  pose proof (restore_wf c ps now' ttl' tti' Hwf Hperm) as Hwf'.
+  pose proof (restore_shs c ps now' ttl' tti' Hwf Hperm) as Hshs.
+  pose proof (es_NoDup c ps now' tti' Hwf Hperm) as Hnd.
+  set (c' := restore (mkSnap ps (c_cap c) (length (c_shs c))) now' ttl' tti') in *.
+  assert (Hall : Forall all_tracked (c_shs c')).
+  { rewrite Hshs, Hcap. apply Forall_forall. intros sh Hsh. apply in_map_iff in Hsh.
+    destruct Hsh as [i [<- _]]. apply restore_policy_tracks. exact Hnd. }
+  assert (Hcost : c_cost c' = total_res (c_shs c')).
   { rewrite Hc1. rewrite total_res_concat. reflexivity. }
-  split.
+  split; [|split; [exact Hall|]].
   - constructor; [exact Hwf'| |exact Hcost|rewrite Hc2; exact Hlt].
     apply Forall_forall. intros sh Hsh.
-    pose proof (proj1 (Forall_forall _ _) Hfp sh Hsh) as [Hp Hq].
-    destruct sh as [m pol pend]. cbn [sh_pol sh_pend] in Hp, Hq. subst pol pend. apply sh_acc_fresh.
-    destruct (In_nth _ _ empty_sh Hsh) as [j [Hj Hn]].
-    destruct Hwf' as [_ Hw]. destruct (Hw j) as [H1 _]; [unfold maps; rewrite map_length; lia|].
-    unfold maps in H1. rewrite (nth_indep _ [] (sh_map empty_sh)) in H1 by (rewrite map_length; exact Hj).
-    rewrite map_nth, Hn in H1. exact H1.
-  - rewrite Hcost. apply U_all_unknown; apply Forall_forall; intros sh Hsh;
-      apply (proj1 (Forall_forall _ _) Hfp sh Hsh).
+    destruct (proj1 (Forall_forall _ _) Hall sh Hsh) as [Hp [Hn [_ Ht]]].
+    constructor.
+    + destruct (In_nth _ _ empty_sh Hsh) as [j [Hj Hnth]].
+      destruct Hwf' as [_ Hw]. destruct (Hw j) as [H1 _]; [unfold maps; rewrite map_length; lia|].
+      unfold maps in H1. rewrite (nth_indep _ [] (sh_map empty_sh)) in H1 by (rewrite map_length; exact Hj).
+      rewrite map_nth, Hnth in H1. exact H1.
+    + exact Hn.
+    + intros k c0 Hi. right. apply Ht. exact Hi.
+    + intros p1 k c0 p2 Hs. rewrite Hp in Hs. destruct p1; discriminate.
+  - apply U_all_tracked. exact Hall.
 Qed.
 
 (** "honours its capacity like any other cache" — the baseline: a cache that
@@ -703,23 +747,26 @@ Proof.
   fold c in HU. destruct H2 as [H2|H2]; lia.
 Qed.
 
-(** a restored cache: within capacity after maintenance provided the snapshot
-    itself was within capacity; in general only bounded by the restored cost *)
-Theorem restored_capacity c now' tti' cp os :
-  wf c -> c_cap c = Some cp ->
+(** a cache built from a snapshot (entries in any order), after the repair of
+    F-23: exactly the same guarantee *)
+Theorem restored_capacity c ps now' tti' cp os :
+  wf c -> c_cap c = Some cp -> Permutation ps (s_entries (snapshot c)) ->
   sumN (map ecost (filter (live (c_tti c) (c_now c)) (concat (maps c)))) < W64 ->
-  let c' := restore (snapshot c) now' None tti' in
+  let c' := restore (mkSnap ps (c_cap c) (length (c_shs c))) now' None tti' in
   ok_run c' (os ++ [OMaint]) ->
   let cf := fst (run c' (os ++ [OMaint])) in
-  c_cost cf = total_res (c_shs cf)
-  /\ (c_cost cf <= cp \/ c_cost cf <= c_cost c')
-  /\ (c_cost c' <= cp -> c_cost cf <= cp).
+  c_cost cf <= cp /\ c_cost cf = total_res (c_shs cf).
 Proof.
-  intros Hwf Hcap Hlt c' Hok. cbv zeta.
-  destruct (Inv_restore c now' None tti' Hwf Hlt) as [HI HU]. fold c' in HI, HU.
-  assert (Hcap' : c_cap c' = Some cp) by (unfold c', restore, snapshot; cbn [c_cap s_cap]; exact Hcap).
+  intros Hwf Hcap Hperm Hlt c' Hok. cbv zeta.
+  destruct (Inv_restore c ps now' None tti' cp Hwf Hcap Hperm Hlt) as [HI [_ HU]]. fold c' in HI, HU.
+  assert (Hcap' : c_cap c' = Some cp) by (unfold c', restore; cbn [c_cap s_cap]; exact Hcap).
   destruct (maint_capacity c' cp os HI Hcap' Hok) as [H1 H2].
-  split; [exact H1|]. rewrite HU in H2. split; [exact H2|]. intros Hle. destruct H2 as [H2|H2]; lia.
+  split; [|exact H1]. rewrite HU in H2. destruct H2 as [H2|H2]; lia.
+Qed.
+
+Lemma sumN_filter_le (f : entry -> bool) l : sumN (map ecost (filter f l)) <= sumN (map ecost l).
+Proof.
+  induction l as [|e t IH]; cbn [filter map sumN]; [lia|]. destruct (f e); cbn [map sumN]; lia.
 Qed.
 
 (* ------------------------------------------------------------------------ *)
@@ -732,14 +779,16 @@ Definition snapshot_lifetime_full : Prop :=
     ole (life_left tti' now' (entry_of_p now' tti' (pentry_of (c_now c) e)))
         (life_left (c_tti c) (c_now c) e).
 
-(* "from then on honours its capacity like any other cache": after any
-   admissible history ending in a fully draining run_maintenance *)
+(* "from then on honours its capacity like any other cache": from any consistent
+   cache state c (over capacity or not), any ordering ps of its snapshot, after
+   any admissible history ending in a fully draining run_maintenance *)
 Definition restored_capacity_full : Prop :=
-  forall c now' tti' cp os,
-    Inv c -> c_cap c = Some cp ->
-    let c' := restore (snapshot c) now' None tti' in
+  forall c ps now' tti' cp os,
+    Inv c -> c_cap c = Some cp -> Permutation ps (s_entries (snapshot c)) ->
+    let c' := restore (mkSnap ps (c_cap c) (length (c_shs c))) now' None tti' in
     ok_run c' (os ++ [OMaint]) ->
-    c_cost (fst (run c' (os ++ [OMaint]))) <= cp.
+    let cf := fst (run c' (os ++ [OMaint])) in
+    c_cost cf <= cp /\ c_cost cf = total_res (c_shs cf).
 
 Ltac solve_ok_run :=
   cbn [ok_run app]; repeat (split; [first [reflexivity | discriminate | (vm_compute; reflexivity)
@@ -768,8 +817,18 @@ Proof.
   cbn [ole] in Hx. lia.
 Qed.
 
-(* a snapshot taken while the cache is over capacity (3 inserts of cost 4 into
-   capacity 10, no maintenance yet): the restored cache stays at 12 *)
+(* since the repair of F-23 the full clause holds *)
+Theorem restored_capacity_holds : restored_capacity_full.
+Proof.
+  intros c ps now' tti' cp os HI Hcap Hperm c' Hok.
+  apply (restored_capacity c ps now' tti' cp os); try assumption; [apply HI|].
+  destruct HI as [_ _ Hcost HW]. rewrite Hcost, total_res_concat in HW. fold (maps c) in HW.
+  pose proof (sumN_filter_le (live (c_tti c) (c_now c)) (concat (maps c))). lia.
+Qed.
+
+(* the former witness of F-23: a snapshot taken while the cache is over capacity
+   (3 inserts of cost 4 into capacity 10, no maintenance yet).  The restored
+   cache now ends its first run_maintenance at 8, like the original. *)
 Definition w_cap : cache :=
   fst (run (new_cache 1 (Some 10) None None 1000) [OIns 1 1 4; OIns 2 2 4; OIns 3 3 4]).
 
@@ -780,15 +839,9 @@ Proof.
   apply (run_inv 10 _ _ HI eq_refl Hok).
 Qed.
 
-Theorem restored_capacity_refuted : ~ restored_capacity_full.
-Proof.
-  intros H. specialize (H w_cap 1000 None 10 [] w_cap_Inv eq_refl). cbv zeta in H.
-  assert (Hok : ok_run (restore (snapshot w_cap) 1000 None None) ([] ++ [OMaint])) by solve_ok_run.
-  specialize (H Hok).
-  assert (Hx : 12 <= 10) by exact H. lia.
-Qed.
-
-(* the same history on the original cache ends within capacity *)
-Example original_within_capacity :
-  c_cost (fst (run w_cap [OMaint])) = 8.
-Proof. vm_compute. reflexivity. Qed.
+Example former_F23_witness :
+  c_cost w_cap = 12
+  /\ c_cost (fst (run w_cap [OMaint])) = 8
+  /\ c_cost (fst (run (restore (snapshot w_cap) 1000 None None) [OMaint])) = 8
+  /\ c_cost (fst (run (restore (reorder (snapshot w_cap)) 1000 None None) [OMaint])) = 8.
+Proof. repeat split; vm_compute; reflexivity. Qed.
